@@ -47,6 +47,7 @@ class IrToProtobuf(Contract):
     target = "ir.py::IR._to_protobuf"
     props = ()
     assumed = True
+    selects = staticmethod(lambda self_cls, args, kwargs=None: True)
     params = {"self": "ref:IR"}
     result = "pb:IR"
     modifies = lambda self, c0, a: {k: NEW for k in ("$alive", "$kind", "$pb.source")}
